@@ -64,6 +64,38 @@ Theorem C16_fixes_only_restrict : forall c, verify fixed_quirks c = Ok tt -> ver
 Proof. exact fixes_only_restrict_lemma. Qed.
 Print Assumptions C16_fixes_only_restrict.
 
+(* Sites that interact (one field named at two sites with different roles).  For every accepted file: the key
+   fields are pairwise distinct across orchestration keys and metricKeys at every position (they are the label
+   names key_<field> of one metric), output names and schema fields are distinct, and the rewriter chain of EVERY
+   rewriteFields entry is well formed and on a known field - whether that field is hidden, an environment field
+   or visible. *)
+Theorem C16_interacting_sites : forall c, verify fixed_quirks c = Ok tt ->
+  NoDup (orch_keys (c_orch c) ++ c_metric_keys c) /\
+  NoDup (map p_name (c_pairs c)) /\
+  NoDup (c_fields c) /\
+  (forall p env hidden rewrites mode addr ok dur, In p (c_pairs c) ->
+     p_output p = OFluentd env hidden rewrites mode addr ok dur ->
+     forall fr, In fr rewrites -> known (c_fields c) (fst fr) /\ rewriters_valid (c_fields c) (snd fr)).
+Proof. exact interacting_sites_lemma. Qed.
+Print Assumptions C16_interacting_sites.
+
+(* ... and the constructors really depend on these interactions (the model has both sides): a metric key equal
+   to the first orchestration key makes the registry panic at the first record; a malformed chain on a hidden
+   field makes NewEventSerializer panic - each is rejected by verify. *)
+Theorem C16_interacting_sites_constructed :
+  (exists e, verify fixed_quirks w_key_overlap = Err e) /\
+  (exists p, construct fixed_quirks w_key_overlap = Ok p /\ pipeline_safe p = false /\
+             run_record x_trivial p 0 (w_record "x") = Panic site_metric_label) /\
+  (exists e, verify fixed_quirks (w_hidden_chain [RwInline (bs "log")]) = Err e) /\
+  construct fixed_quirks (w_hidden_chain [RwInline (bs "log")]) = Panic site_rewriter_order /\
+  (exists e, verify fixed_quirks (w_hidden_chain [RwCopy; RwUnescape]) = Err e) /\
+  construct fixed_quirks (w_hidden_chain [RwCopy; RwUnescape]) = Panic site_rewriter_order /\
+  (exists e, verify fixed_quirks (w_hidden_chain [RwInline (bs "nosuch"); RwCopy]) = Err e) /\
+  construct fixed_quirks (w_hidden_chain [RwInline (bs "nosuch"); RwCopy]) = Panic site_must_locator /\
+  verify fixed_quirks (w_hidden_chain [RwInline (bs "log"); RwCopy]) = Ok tt.
+Proof. exact w_interactions. Qed.
+Print Assumptions C16_interacting_sites_constructed.
+
 (* Non-vacuity: a configuration with switch / if / block nesting, sampled drop, templates with slices,
    both extractors, named captures, two outputs and an inline+unescape rewriter chain is accepted
    (86 reference sites); the assumption on the libraries is satisfiable. *)
